@@ -881,6 +881,184 @@ theorem grid_ctor_total (vols : List α) (active : Option Nat) : (Grid.mk' vols 
   rw [total_volume_sum]
   cases active <;> rfl
 
+/-! ## 7. proof-deepening pass -/
+
+/-- **Pappus volume is non-negative for r ≥ 0** (and the centroid radius too): for every polygon with a consistently
+oriented triangulation by diagonals (the predicate of the harness probe) whose vertices have `r ≥ 0` -/
+theorem centroid_r_nonneg (l : List (α × α)) (t : List ((α × α) × (α × α) × (α × α)))
+    (h : Triangulates l t)
+    (hor : (∀ T ∈ t, tri2 T.1 T.2.1 T.2.2 ≤ 0) ∨ (∀ T ∈ t, 0 ≤ tri2 T.1 T.2.1 T.2.2))
+    (hr : ∀ T ∈ t, 0 ≤ T.1.1 ∧ 0 ≤ T.2.1.1 ∧ 0 ≤ T.2.2.1) (c : α × α) (hc : centroid l = some c) :
+    0 ≤ c.1 := by
+  have hS := triangulation_area l t h
+  have hX := (triangulation_moments l t h).1
+  unfold centroid at hc
+  simp only [beq_iff_eq, lit6, lit2] at hc
+  split_ifs at hc with h0
+  simp only [Option.some.injEq] at hc
+  rw [← hc]
+  simp only
+  rcases hor with hn | hp
+  · have s1 : shoelace2 l ≤ 0 := by
+      rw [← hS]; exact list_sum_nonpos _ (by
+        intro x hx; obtain ⟨T, hT, rfl⟩ := List.mem_map.mp hx; exact hn T hT)
+    have x1 : accum cxTerm l ≤ 0 := by
+      rw [← hX]; exact list_sum_nonpos _ (by
+        intro x hx; obtain ⟨T, hT, rfl⟩ := List.mem_map.mp hx
+        obtain ⟨a1, a2, a3⟩ := hr T hT
+        exact mul_nonpos_of_nonneg_of_nonpos (by linarith) (hn T hT))
+    exact div_nonneg_of_nonpos x1 (by linarith)
+  · have s1 : 0 ≤ shoelace2 l := by
+      rw [← hS]; exact List.sum_nonneg (by
+        intro x hx; obtain ⟨T, hT, rfl⟩ := List.mem_map.mp hx; exact hp T hT)
+    have x1 : 0 ≤ accum cxTerm l := by
+      rw [← hX]; exact List.sum_nonneg (by
+        intro x hx; obtain ⟨T, hT, rfl⟩ := List.mem_map.mp hx
+        obtain ⟨a1, a2, a3⟩ := hr T hT
+        exact mul_nonneg (by linarith) (hp T hT))
+    exact div_nonneg x1 (by linarith)
+
+theorem volume_nonneg (pi : α) (hpi : 0 ≤ pi) (l : List (α × α)) (t : List ((α × α) × (α × α) × (α × α)))
+    (h : Triangulates l t)
+    (hor : (∀ T ∈ t, tri2 T.1 T.2.1 T.2.2 ≤ 0) ∨ (∀ T ∈ t, 0 ≤ tri2 T.1 T.2.1 T.2.2))
+    (hr : ∀ T ∈ t, 0 ≤ T.1.1 ∧ 0 ≤ T.2.1.1 ∧ 0 ≤ T.2.2.1) : 0 ≤ volume pi l := by
+  unfold volume
+  cases hc : centroid l with
+  | none => simp
+  | some c =>
+    have hcx := centroid_r_nonneg l t h hor hr c hc
+    have ha : 0 ≤ area l := by
+      unfold area; rw [absv_eq_abs, lit2]; positivity
+    simp only [lit2]
+    exact mul_nonneg (mul_nonneg (mul_nonneg (by norm_num) hpi) hcx) ha
+
+example : 0 ≤ volume (3 : ℚ) [(0, 0), (1, 0), (1, 1), (0, 1)] :=
+  volume_nonneg 3 (by norm_num) _ ([((0, 0), (1, 0), (1, 1))] ++ [((0, 0), (1, 1), (0, 1))])
+    (Triangulates.split (0, 0) (1, 1) [(1, 0)] [(0, 1)] _ _ (Triangulates.tri _ _ _) (Triangulates.tri _ _ _))
+    (Or.inr (by intro T hT; simp at hT; rcases hT with rfl | rfl <;> norm_num [tri2, cross]))
+    (by intro T hT; simp at hT; rcases hT with rfl | rfl <;> norm_num)
+
+/-- **the chosen triangle has positive area**: zero-area triangles of the table are never selected -/
+theorem pick_positive_area (as : List α) (hl : ∀ a ∈ as, 0 ≤ a) (hn : 2 ≤ as.length) (total : α)
+    (ht : total = as.sum) (hpos : 0 < total) (u : α) (hu : 0 ≤ u) (j : Nat) (hj : j < as.length)
+    (hp : pickTriangleG true false (cumulativeAreas as) total u = (j : Int)) : 0 < as.getD j 0 := by
+  obtain ⟨hiff, hlen, _, _⟩ := pick_triangle_measure as hl hn total ht hpos u hu j hj
+  obtain ⟨h1, h2⟩ := hiff.mp hp
+  have : 0 < (as.take (j + 1)).sum / total - (as.take j).sum / total := by linarith
+  rw [hlen] at this
+  by_contra hc
+  have : as.getD j 0 / total ≤ 0 := div_nonpos_of_nonpos_of_nonneg (not_lt.mp hc) hpos.le
+  linarith
+
+/-- **… and every triangle of positive area is reachable**: some `u ∈ [0,1)` selects it.  Together with
+`sample_point_convex` / `sample_point_onto`: the sampled set is exactly the union of the positive-area triangles. -/
+theorem every_positive_triangle_reachable (as : List α) (hl : ∀ a ∈ as, 0 ≤ a) (hn : 2 ≤ as.length) (total : α)
+    (ht : total = as.sum) (hpos : 0 < total) (j : Nat) (hj : j < as.length) (hpa : 0 < as.getD j 0) :
+    ∃ u, 0 ≤ u ∧ u < 1 ∧ pickTriangleG true false (cumulativeAreas as) total u = (j : Int) := by
+  have hlo : 0 ≤ (as.take j).sum / total :=
+    div_nonneg (List.sum_nonneg (fun x hx => hl x (List.mem_of_mem_take hx))) hpos.le
+  obtain ⟨hiff, hlen, _, _⟩ := pick_triangle_measure as hl hn total ht hpos ((as.take j).sum / total) hlo j hj
+  have hhi : (as.take (j + 1)).sum / total ≤ 1 := by
+    rw [div_le_one hpos, ht]
+    have := take_sum_mono as hl (j + 1) as.length (by omega)
+    rwa [List.take_length] at this
+  have hgap : (as.take j).sum / total < (as.take (j + 1)).sum / total := by
+    have : 0 < as.getD j 0 / total := div_pos hpa hpos
+    linarith
+  exact ⟨_, hlo, lt_of_lt_of_le hgap hhi, hiff.mpr ⟨le_refl _, hgap⟩⟩
+
+example : ∃ u : ℚ, 0 ≤ u ∧ u < 1 ∧ pickTriangleG true false (cumulativeAreas [(1 : ℚ), 2, 1]) 4 u = (2 : ℕ) :=
+  every_positive_triangle_reachable [1, 2, 1] (by intro a ha; simp at ha; rcases ha with rfl | rfl | rfl <;> norm_num)
+    (by simp) 4 (by norm_num) (by norm_num) 2 (by simp) (by norm_num)
+
+/-- **`point_triangle` is onto the triangle** (up to the edge `v1 v2`): every convex combination with positive
+weights on `v1` and `v3` is the image of some `(u1, u2) ∈ [0,1)²` -/
+theorem sample_point_onto (sqrt : α → α) (hs : ∀ s, 0 ≤ s → sqrt (s * s) = s)
+    (v1 v2 v3 : α × α) (a b c : α) (ha : 0 < a) (hb : 0 ≤ b) (hc : 0 < c) (habc : a + b + c = 1) :
+    ∃ u1 u2, (0 ≤ u1 ∧ u1 < 1) ∧ (0 ≤ u2 ∧ u2 < 1) ∧
+      samplePoint sqrt v1 v2 v3 u1 u2 = (a * v1.1 + b * v2.1 + c * v3.1, a * v1.2 + b * v2.2 + c * v3.2) := by
+  have hs0 : 0 < 1 - a := by linarith
+  have hs1 : 1 - a < 1 := by linarith
+  refine ⟨(1 - a) * (1 - a), b / (1 - a), ⟨by positivity, by nlinarith⟩, ⟨by positivity, ?_⟩, ?_⟩
+  · rw [div_lt_one hs0]; linarith
+  · unfold samplePoint
+    rw [hs (1 - a) hs0.le]
+    have e1 : b / (1 - a) * (1 - a) = b := by field_simp
+    have e2 : 1 - a - b = c := by linarith
+    simp only [e1, sub_sub_cancel, e2]
+
+/-- **the sampling loop never leaves the triangle table** (exact arithmetic): for a table that ends at the total
+area — `table_ends_at_total`: any consistently oriented triangulation by diagonals — every stream of uniforms in
+`[0,1)` that is long enough is consumed without an `IndexOutOfRange`, with the lookup as generated from the source -/
+theorem drawOne_total (sqrt : α → α) (verts : List (α × α)) (tris : List (Nat × Nat × Nat))
+    (hsum : (triAreas verts tris).sum = area verts) (hpos : 0 < area verts) (hn : 1 ≤ tris.length)
+    (us : List α) (hlen : 3 ≤ us.length) (hu : ∀ x ∈ us, x < 1) :
+    ∃ s k, k ≤ 3 ∧
+      drawOne sqrt verts tris (cumulativeAreas (triAreas verts tris)) (area verts) us = .ok (s, us.drop k) := by
+  have hl : (triAreas verts tris).length = tris.length := by simp [triAreas]
+  match us, hlen, hu with
+  | u :: u1 :: u2 :: r, _, hu =>
+    unfold drawOne
+    split_ifs with h1
+    · have hr := pick_in_range (triAreas verts tris) (by omega) (area verts) hsum.symm hpos u
+        (hu u (by simp)) Cherab.Gen.Voxels.pickScaleIsTotal Cherab.Gen.Voxels.pickClamped
+      unfold pickTriangleG at hr
+      rw [cumulativeAreas_length, hl, if_pos h1] at hr
+      obtain ⟨r1, r2⟩ := hr
+      simp only
+      unfold finishDraw
+      rw [if_neg (by omega)]
+      have hidx : (lookup Cherab.Gen.Voxels.pickScaleIsTotal Cherab.Gen.Voxels.pickClamped
+          (cumulativeAreas (triAreas verts tris)) (area verts) u).toNat < tris.length := by omega
+      rw [List.getElem?_eq_getElem hidx]
+      exact ⟨_, 3, le_refl _, rfl⟩
+    · simp only
+      unfold finishDraw
+      rw [if_neg (by omega)]
+      have hidx : (0 : Int).toNat < tris.length := by simp; omega
+      rw [List.getElem?_eq_getElem hidx]
+      exact ⟨_, 2, by omega, rfl⟩
+
+theorem drawN_never_leaves_table (sqrt : α → α) (verts : List (α × α)) (tris : List (Nat × Nat × Nat))
+    (hsum : (triAreas verts tris).sum = area verts) (hpos : 0 < area verts) (hn : 1 ≤ tris.length) :
+    ∀ (n : Nat) (us : List α), 3 * n ≤ us.length → (∀ x ∈ us, x < 1) →
+      (drawN sqrt verts tris (cumulativeAreas (triAreas verts tris)) (area verts) n us).2 = none := by
+  intro n
+  induction n with
+  | zero => intro us _ _; simp [drawN]
+  | succ k ih =>
+    intro us hlen hu
+    obtain ⟨s, j, hj, hd⟩ := drawOne_total sqrt verts tris hsum hpos hn us (by omega) hu
+    unfold drawN
+    rw [hd]
+    simp only
+    exact ih (us.drop j) (by rw [List.length_drop]; omega) (fun x hx => hu x (List.mem_of_mem_drop hx))
+
+example : (drawN (fun _ : ℚ => 1 / 2) [(0, 0), (1, 0), (1, 1), (0, 1)] [(0, 1, 2), (0, 2, 3)]
+    (cumulativeAreas (triAreas [(0, 0), (1, 0), (1, 1), (0, 1)] [(0, 1, 2), (0, 2, 3)]))
+    (area [(0, 0), (1, 0), (1, 1), (0, 1)]) 2 [1 / 2, 1 / 4, 1 / 2, 3 / 4, 1 / 4, 1 / 4]).2 = none :=
+  drawN_never_leaves_table _ _ _
+    (by norm_num [triAreas, triArea, vtx, area, shoelace2, accum, edges, cross, absv])
+    (by norm_num [area, shoelace2, accum, edges, cross, absv]) (by simp) 2 _ (by simp)
+    (by intro x hx; simp at hx; rcases hx with rfl | rfl | rfl | rfl | rfl <;> norm_num)
+
+example : ∃ u1 u2 : ℝ, (0 ≤ u1 ∧ u1 < 1) ∧ (0 ≤ u2 ∧ u2 < 1) ∧
+    samplePoint Real.sqrt (0, 0) (1, 0) (0, 1) u1 u2 = (1 / 2 * 0 + 1 / 4 * 1 + 1 / 4 * 0, 1 / 2 * 0 + 1 / 4 * 0 + 1 / 4 * 1) :=
+  sample_point_onto Real.sqrt (fun s hs => Real.sqrt_mul_self hs) (0, 0) (1, 0) (0, 1) (1 / 2) (1 / 4) (1 / 4)
+    (by norm_num) (by norm_num) (by norm_num) (by norm_num)
+
+/-- grid state machine: a rejected operation (`set_active(i)` out of range → IndexError) leaves the whole state
+unchanged; an accepted `set_active(i)` parents exactly voxel `i`; no operation touches the voxels' volumes -/
+theorem grid_rejected_op_unchanged (g : Grid α) (i : Nat) (h : g.vols.length ≤ i) : g.step (.active i) = g := by
+  simp [Grid.step, Nat.not_lt.mpr h]
+
+theorem grid_active_exactly_one (g : Grid α) (i : Nat) (h : i < g.vols.length) (j : Nat)
+    (hj : j < g.parented.length) : (g.step (.active i)).parented[j]? = some (j == i) := by
+  simp [Grid.step, h, hj]
+
+example : (Grid.mk' [(1 : ℚ), 2, 3] none).step (.active 7) = Grid.mk' [(1 : ℚ), 2, 3] none :=
+  grid_rejected_op_unchanged _ 7 (by simp [Grid.mk'])
+
 /-! ## non-vacuity and the float-gap witness (over ℚ) -/
 
 /-- an L-shaped hexagon: area 3, same for every rotation and for the reversed listing -/
